@@ -13,18 +13,18 @@ import (
 // select-index strides) are exercised in the quick tier as well. Each set is
 // checked for C01 (all retained keys), then C02/C09/C03-style answers are
 // checked by the respective properties' own functions on the same case.
-func TestC01Large(t *testing.T) {
-	st := newStats("C01")
-	defer st.write()
-	shard, nshards := envInt("VERIF_SHARD", 0), envInt("VERIF_NSHARDS", 1)
-	type spec struct {
-		name string
-		keys func() []string
-		enc  string
-		vm   string
-		opt  OptSpec
-		load string
-	}
+type largeSpec struct {
+	name string
+	keys func() []string
+	enc  string
+	vm   string
+	opt  OptSpec
+	load string
+}
+
+// largeSpecs lists the deterministic large shapes (see TestC01Large).
+func largeSpecs() []largeSpec {
+	type spec = largeSpec
 	randKeys := func(n, klen int, seed uint64) func() []string {
 		return func() []string {
 			r := sm64{seed}
@@ -85,40 +85,54 @@ func TestC01Large(t *testing.T) {
 			spec{"rand8x70000/0.5.10/complete", randKeys(70000, 8, 6), "I32", "distinct", OptSpec{0, 0, 0, 2}, "0.5.10"},
 		)
 	}
-	for i, sp := range specs {
+	return specs
+}
+
+// largeCase materialises one large shape as a Case.
+func largeCase(sp largeSpec) *Case {
+	keys := sp.keys()
+	c := &Case{Gen: "large:" + sp.name, Keys: hexes(keys), Enc: sp.enc, Opt: sp.opt, Load: sp.load}
+	if sp.vm != "" {
+		c.HasVals = true
+		c.VMode = sp.vm
+		id := uint64(0)
+		for j := range keys {
+			switch sp.vm {
+			case "distinct":
+				id = uint64(j)
+			case "runs":
+				if j%3 == 0 {
+					id++
+				}
+			case "pairdup":
+				id = uint64(j / 2)
+			}
+			var p Hex
+			if sp.enc == "String16" {
+				p = Hex(fmt.Sprintf("v%x", id))
+				if id%5000 == 0 {
+					p = Hex(fmt.Sprintf("%0300x", id))
+				}
+			} else {
+				p = Hex(leBytes(id, encSpecs[sp.enc].width))
+			}
+			c.Vals = append(c.Vals, p)
+		}
+	}
+	c.Win = len(keys) / 2
+	return c
+}
+
+func TestC01Large(t *testing.T) {
+	st := newStats("C01")
+	defer st.write()
+	shard, nshards := envInt("VERIF_SHARD", 0), envInt("VERIF_NSHARDS", 1)
+	for i, sp := range largeSpecs() {
 		if i%nshards != shard {
 			continue
 		}
-		keys := sp.keys()
-		c := &Case{Prop: "C01", Gen: "large:" + sp.name, Keys: hexes(keys), Enc: sp.enc, Opt: sp.opt, Load: sp.load}
-		if sp.vm != "" {
-			c.HasVals = true
-			c.VMode = sp.vm
-			id := uint64(0)
-			for j := range keys {
-				switch sp.vm {
-				case "distinct":
-					id = uint64(j)
-				case "runs":
-					if j%3 == 0 {
-						id++
-					}
-				case "pairdup":
-					id = uint64(j / 2)
-				}
-				var p Hex
-				if sp.enc == "String16" {
-					p = Hex(fmt.Sprintf("v%x", id))
-					if id%5000 == 0 {
-						p = Hex(fmt.Sprintf("%0300x", id))
-					}
-				} else {
-					p = Hex(leBytes(id, encSpecs[sp.enc].width))
-				}
-				c.Vals = append(c.Vals, p)
-			}
-		}
-		c.Win = len(keys) / 2
+		c := largeCase(sp)
+		c.Prop = "C01"
 		checks := []struct {
 			name string
 			f    func(*Case, *Stats) error
@@ -153,5 +167,38 @@ func TestC01Large(t *testing.T) {
 		}
 		st.done(c, true, "large")
 		st.class("large_shape_checked")
+	}
+}
+
+// TestC05Large: the marshal round trip (checkC05) on the same large shapes, so
+// that load-time code sees every short-table size up to 10 and > 65535 nodes in
+// the quick tier as well.
+func TestC05Large(t *testing.T) {
+	st := newStats("C05")
+	defer st.write()
+	shard, nshards := envInt("VERIF_SHARD", 0), envInt("VERIF_NSHARDS", 1)
+	for i, sp := range largeSpecs() {
+		if i%nshards != shard {
+			continue
+		}
+		if sp.load != "" && sp.load != "reload" && sp.load != "proto" {
+			continue // legacy layouts are C06's business
+		}
+		c := largeCase(sp)
+		c.Prop = "C05"
+		c.Load = []string{"reload", "proto"}[i%2]
+		sub := newStats("C05")
+		if err := checkC05(c, sub); err != nil {
+			if _, ok := err.(*violation); !ok {
+				t.Fatalf("HARNESS ERROR: %v", err)
+			}
+			path := writeReplay("C05", c)
+			fmt.Printf("VIOLATION property=C05 replay=%s\n", path)
+			fmt.Printf("DETAIL property=C05 large shape %s: %s\n", sp.name, oneLine(err.Error()))
+			t.Fatalf("C05 violated on %s: %v", sp.name, err)
+		}
+		st.calls(int(sub.Calls))
+		st.done(c, true, "large")
+		st.class("large_shape_round_trip")
 	}
 }
